@@ -617,7 +617,7 @@ fn long_run_parts(out: &mut Outcome, thorough: bool) {
                         let _ = (b.level_1_data(), b.level_2_data(), b.bid_ask(), b.ask_best_vol_and_orders(), b.bid_best_vol_and_orders(), b.ask_levels(), b.bid_levels(), b.mid_price(), e.level_2_data().ask_vol);
                     }
                     if live.len() < 2 || k % 2 == 0 {
-                        live.push_back(e.place_order(Side::Ask, 1 + (k % 3) as u32, 2, Some(102 + (k % 2) as u32)).unwrap());
+                        live.push_back(e.place_order(Side::Ask, 1 + (k % 3) as u32, 2, Some(if k % 4 < 2 { 100 } else { 102 })).unwrap());
                     } else {
                         e.cancel_order(live.pop_front().unwrap());
                     }
@@ -636,7 +636,7 @@ fn long_run_parts(out: &mut Outcome, thorough: bool) {
                         let _ = (b.level_1_data(), b.level_2_data(), b.bid_ask(), b.ask_best_vol_and_orders(), b.ask_levels(), e.get_market().level_2_data()[1].ask_vol, e.level_2_data()[1].ask_vol);
                     }
                     if live.len() < 2 || k % 2 == 0 {
-                        live.push_back(e.place_order(1, Side::Ask, 1 + (k % 3) as u32, 2, Some(102 + (k % 2) as u32)).unwrap().1);
+                        live.push_back(e.place_order(1, Side::Ask, 1 + (k % 3) as u32, 2, Some(if k % 4 < 2 { 100 } else { 102 })).unwrap().1);
                     } else {
                         e.cancel_order((1, live.pop_front().unwrap()));
                     }
@@ -672,7 +672,7 @@ fn long_run_parts(out: &mut Outcome, thorough: bool) {
     out.add_u64("states", runs);
     out.add_u64("transitions", steps_total);
     out.add_u64("traces_validated_against_impl", runs);
-    out.set("long_runs", json!({"short_run_after_long_run": {"long_run_steps": long_lengths, "short_run_steps": 30}, "one_read": {"steps": horizon, "read_before_step": [0, 1, 2, 3, 10, 100], "mutations_of_the_ask_side_per_step": 1}, "runs": runs}));
+    out.set("long_runs", json!({"short_run_after_long_run": {"long_run_steps": long_lengths, "short_run_steps": 30}, "one_read": {"steps": horizon, "read_before_step": [0, 1, 2, 3, 10, 100], "mutations_of_the_ask_side_per_step": "1 (an order joins or leaves the touch level or the level two ticks behind it)"}, "runs": runs}));
 }
 
 /// environment variables the library reads (scanned from its sources): a child process is run
